@@ -6,7 +6,7 @@ SPEC = dict(
     codes={70: "approved_before_peer_ready_handshake_failed", 71: "trusted_pair_did_not_complete",
            72: "untrusted_pair_completed_or_did_not_end", 73: "sides_disagree_at_rest",
            74: "remote_device_set_up_twice", 75: "completed_without_trust", 76: "spine_datagrams_not_exactly_once_in_order",
-           77: "completed_after_user_cancel_in_hello_phase", 78: "error_state_with_transport_open"},
+           77: "completed_after_user_cancel_in_hello_phase", 78: "error_state_with_transport_open", 79: "completed_although_the_stored_ship_id_differs"},
     rule="shipdrv -prop pair: a real client-role and a real server-role ship.ShipConnection joined by two FIFO queues owned "
          "by the harness, which is the scheduler. 15 directed configurations first (among them the recorded finding), then "
          "random configurations (paired/auto/allow/approves/cancels x stored-id unknown/right/wrong per side) with a random "
